@@ -42,7 +42,7 @@ def strip_ansi(s):
 
 
 class Result:
-    __slots__ = ("rc", "sig", "stdout", "stderr", "timeout", "san", "wall", "qasm")
+    __slots__ = ("rc", "sig", "stdout", "stderr", "timeout", "san", "wall", "qasm", "stalled")
 
     def __init__(self):
         self.rc = None
@@ -52,6 +52,8 @@ class Result:
         self.timeout = False
         self.san = []
         self.wall = 0.0
+        self.qasm = None
+        self.stalled = False
 
     def diag(self):
         """(category, line, col, msg) of the single diagnostic after the stop line, or None."""
@@ -162,7 +164,18 @@ def _limits(stack_mb, cpu_s):
     return fn
 
 
-def run(cmd, env=None, cwd=None, timeout=30, stdin=None, stack_mb=1024, cpu_s=120, retry_timeout=True):
+def _cpu_ticks(pid):
+    """utime+stime of the whole process (all threads), or None when it is gone."""
+    try:
+        with open("/proc/%d/stat" % pid) as f:
+            rest = f.read().rsplit(")", 1)[1].split()
+        return int(rest[11]) + int(rest[12])
+    except (OSError, IndexError, ValueError):
+        return None
+
+
+def run(cmd, env=None, cwd=None, timeout=30, stdin=None, stack_mb=1024, cpu_s=120, retry_timeout=True,
+        stall_s=None):
     """Run one child; classify; a watchdog hit is re-run once, alone, before it is believed."""
     e = dict(BASE_ENV)
     if env:
@@ -178,8 +191,29 @@ def run(cmd, env=None, cwd=None, timeout=30, stdin=None, stack_mb=1024, cpu_s=12
             r.rc = 127
             r.stderr = str(ex)
             return r
+        limit = timeout * (1 if attempt == 0 else 2)
         try:
-            out, err = p.communicate(stdin, timeout=timeout * (1 if attempt == 0 else 2))
+            if stall_s is None:
+                out, err = p.communicate(stdin, timeout=limit)
+            else:
+                # deadlock watchdog: a process that is alive but has not consumed any CPU time for stall_s
+                # seconds is blocked for good (a starved process on a loaded machine still accumulates ticks)
+                last, since, first = None, time.time(), True
+                while True:
+                    try:
+                        out, err = p.communicate(stdin if first else None, timeout=1.0)
+                        break
+                    except subprocess.TimeoutExpired:
+                        first = False
+                        ticks = _cpu_ticks(p.pid)
+                        now = time.time()
+                        if ticks != last:
+                            last, since = ticks, now
+                        elif now - since >= stall_s:
+                            r.stalled = True
+                            raise
+                        if now - t0 >= limit:
+                            raise
         except subprocess.TimeoutExpired:
             try:
                 os.killpg(p.pid, signal.SIGKILL)
@@ -194,7 +228,7 @@ def run(cmd, env=None, cwd=None, timeout=30, stdin=None, stack_mb=1024, cpu_s=12
             r.sig = -p.returncode
         r.rc = p.returncode
         r.san = parse_sanitizer(r.stderr)
-        if r.timeout and retry_timeout and attempt == 0:
+        if r.timeout and retry_timeout and attempt == 0 and not r.stalled:
             continue
         return r
     return r
